@@ -357,6 +357,64 @@ def run_chain(ctx, k, dflt, link0=None):
         ctx.cover('chain:alias-to-undefined-hop')
 
 
+ALIAS_SPELLINGS = ['rule:new', '(rule:new)', ' rule:new', 'rule:new ',
+                   '((rule:new))', [['rule:new']], ['rule:new'],
+                   '( rule:new )', 'rule:new\n', '\trule:new']
+
+
+def run_depalias(ctx, si):
+    """A renamed policy (registered default 'new' with deprecated
+    predecessor 'old') and an operator file that keeps the old name as an
+    alias of the new one, the alias spelled in any equivalent way: an
+    acyclic file, plain credentials -- every name decides, nothing
+    escapes."""
+    from oslo_policy import policy
+    common.set_ctx(ctx)
+    spelling = ALIAS_SPELLINGS[si]
+    where = str(ctx.choice('where', ['main', 'dir']))
+    fmt = str(ctx.choice('fmt', ['yaml', 'json']))
+    graceful = bool(ctx.bool('enforce_new_defaults_off'))
+    dep = policy.DeprecatedRule('old', 'role:o', deprecated_reason='r',
+                                deprecated_since='s')
+    defaults = [policy.RuleDefault('new', 'role:n', deprecated_rule=dep),
+                policy.RuleDefault('other', 'rule:new or role:x')]
+    env = common.PolicyEnv()
+    try:
+        doc = {'old': spelling}
+        if where == 'main':
+            env.write('policy.' + fmt, doc, fmt=fmt)
+        else:
+            env.write('policy.' + fmt, {}, fmt=fmt)
+            env.write('policy.d/a.' + fmt, doc, fmt=fmt)
+        enf = env.enforcer(defaults=defaults,
+                           policy_file=env.path('policy.' + fmt),
+                           enforce_new_defaults=not graceful)
+        creds = {'roles': ctx.roles('role', ['n', 'o', 'x'], eager=True)}
+        roles = creds['roles']
+        newv = 'n' in roles or (graceful and 'o' in roles)
+        want = {'new': newv, 'old': newv, 'other': newv or 'x' in roles}
+        out = []
+        for name in ('new', 'old', 'other'):
+            got = _enforce(ctx, enf, name, {}, creds, 'depalias:exception',
+                           {'alias': repr(spelling), 'name': name,
+                            'where': where, 'fmt': fmt})
+            out.append(got)
+            if got is not None:
+                ctx.require(got == want[name], 'depalias:decision',
+                            detail={'alias': repr(spelling), 'name': name,
+                                    'roles': roles, 'got': got,
+                                    'want': want[name],
+                                    'enforce_new_defaults': not graceful})
+        ctx.observe('got', out)
+        ctx.cover('depalias:evaluated')
+    finally:
+        env.close()
+
+
+def cubes_depalias(tier, seed):
+    return [{'si': i} for i in range(len(ALIAS_SPELLINGS))]
+
+
 def cubes_chain(tier, seed):
     out = [{'k': 2, 'dflt': d} for d in ('none', 'role', 'hostile')]
     for k in ((3,) if tier == 'quick' else (3, 4)):
@@ -378,12 +436,13 @@ HARNESSES = {
     'subst': {'fn': run_subst, 'cubes': cubes_subst},
     'gen': {'fn': run_gen, 'cubes': cubes_gen, 'max_viol': 6},
     'chain': {'fn': run_chain, 'cubes': cubes_chain, 'max_viol': 6},
+    'depalias': {'fn': run_depalias, 'cubes': cubes_depalias},
 }
 REQUIRED_COVER = ['lhs:list', 'lhs:text', 'lhs:literal', 'lhs:not-literal',
                   'lhs:quoted-end-to-end',
                   'paths:evaluated', 'subst:list', 'subst:expr',
                   'gen:evaluated', 'chain:evaluated',
-                  'chain:alias-to-undefined-hop']
+                  'chain:alias-to-undefined-hop', 'depalias:evaluated']
 
 
 def cube_weight(h, p):
